@@ -7,6 +7,8 @@ virtual time.  The association-level endings (real AE / ClientAE, release/abort/
 peer that never closes) are exercised by the P2 part."""
 import random
 
+from ..sched import HarnessError
+
 from .. import convo, refcodec as rc
 from .. import sched
 from ..rig import Rig, describe_indication
@@ -347,6 +349,23 @@ def run_case(case):
                            'indications': [describe_indication(x) for x in user.seen],
                            'wire': [p['kind'] for p in pdus]},
                 'sets': {'states_at_cut': [state_at_cut]}}
+    except HarnessError as e:
+        if 'step budget exhausted' not in str(e):
+            raise
+        # 200 000 scheduling steps in a conversation that takes a few hundred: some thread goes
+        # round and round without ever waiting for anything - the provider is not returning to
+        # idle within any bound.  (Reported like every violation only after it has reproduced
+        # in a fresh interpreter.)
+        busy = sorted(rig.sim.tasks, key=lambda t_: -getattr(t_, 'steps', 0))[:1]
+        sim = rig.sim
+        return {'violations': [{
+            'sig': 'C13 spins-without-end convo=%s busiest=%s at=%s' % (
+                name, busy[0].role if busy else '-', rig.state()),
+            'detail': '%s after %.3f virtual seconds\ncase %r\nblocked %r' % (
+                e, sim.now - 1000.0, case, sim.blocked_report())}],
+            'stats': dict(sim.stats), 'digest': sim.digest.hexdigest(),
+            'sched_sig': 'spin/%s' % name, 'steps': sim.steps, 'vsecs': sim.now - 1000.0,
+            'nontrivial': True, 'sample': {'case': case}}
     finally:
         rig.close()
 
